@@ -253,3 +253,14 @@ def _range_len(ex, r):
         return len(r)
     lo, hi = ex.to_int_term(r[1]), ex.to_int_term(r[2])
     return SInt(z3.If(hi - lo > 0, hi - lo, 0))
+
+
+# -- ghost scalars ---------------------------------------------------------------------------
+@spec("ghost", None)
+def _ghost(ex, name):
+    t = ex.ghost[name]
+    if z3.is_int(t):
+        return SInt(t)
+    if z3.is_bool(t):
+        return SBool(t)
+    return SAny(t)
